@@ -59,6 +59,8 @@ def shard(job) -> dict:
         out = ns_job(job)
     elif job[0] == "M":
         return manual_shard(job)
+    elif job[0] == "D":
+        out = declared_job(job)
     else:
         out = RT.run_job(job, judge, include_out_of_domain=True)
     out["extra"] = {"distinct": len(out["extra"].get("digests", ()))}
@@ -104,6 +106,49 @@ def ns_job(job) -> dict:
                               f"stream with namespace declarations rejected/misread by the "
                               f"reference decoder: {r[1]} case={case}", case,
                               {"bytes": data.hex()})
+            # the same containers (bindings and all) written with the option off: version 1,
+            # which has no namespace rows
+            try:
+                off = c14.write(api, cls, seq, bindings, preset, False)
+            except Exception:  # noqa: BLE001
+                acc.counters["write_raised"] += 1
+                continue
+            acc.counters["streams"] += 1
+            r = validate(off, True, T.norm_seq(seq), expect_ns=[], as_set=api == "rdflib")
+            if r is not None:
+                c2 = {**case, "ns_off": True}
+                acc.violation({"api": api, "cls": cls, "writer": "namespaces-off", "fail": r[0]},
+                              f"stream written from a container with bindings, declarations off, "
+                              f"rejected/misread by the reference decoder: {r[1]} case={c2}", c2,
+                              {"bytes": off.hex()})
+    return acc.out()
+
+
+def declared_job(job) -> dict:
+    """Tables declared at and beyond the 4096 limit and really filled beyond it: every id must
+    lie within the size the stream's own options row declares."""
+    from mc.checks import c05  # noqa: PLC0415
+
+    _, api, rule, n = job
+    acc = pool.Acc()
+    seq, preset = c05.declared_case(rule, n)
+    case = {"family": "D", "api": api, "rule": rule, "n": n, "cls": "triple",
+            "writer": "declared-size", "delimited": True}
+    acc.evals += 1
+    acc.counters["ns_cases"] += 1  # (outside the closed-form count of the C01/C02 spaces)
+    try:
+        opts = DR.make_options("triple", preset, 250, True, generalized=False, rdf_star=False)
+        data = (DR.g_write if api == "generic" else DR.r_write)(seq, "triple", opts,
+                                                               "stream_frames_gen")
+    except Exception:  # noqa: BLE001
+        acc.counters["write_raised"] += 1
+        return acc.out()
+    acc.counters["streams"] += 1
+    r = validate(data, True, T.norm_seq(seq))
+    if r is not None:
+        acc.violation({"api": api, "cls": "triple", "writer": "declared-size", "fail": r[0]},
+                      f"{rule} table declared with {n} slots and {n + 2} distinct keys: {r[1][:300]} "
+                      f"case={case}", case)
     return acc.out()
 
 
@@ -271,6 +316,8 @@ def run(ctx) -> None:
     nb = len(c14.binding_lists(2))
     njobs = [("N", api, cls, pi, lo, hi) for api in ("generic", "rdflib") for cls in DR.CLASSES
              for pi in range(len(c14.PRESETS)) for lo, hi in pool.split_range(nb, 2)]
+    njobs += [("D", api, rule, n) for api in ("generic", "rdflib")
+              for rule in ("name", "prefix", "datatype") for n in (4096, 4097, 5000)]
     mjobs = [("M", name, 1200 if ctx.quick else 20000) for name in MANUAL_SCOPES]
     merged = pool.merge(pool.pmap(shard, mjobs + jobs + rjobs + njobs))
     ctx.add(merged)
@@ -313,6 +360,10 @@ def replay(case: dict) -> list:
             if out:
                 return out
         return out
+    if case.get("family") == "D":
+        DR.ensure_rdflib_plugin()
+        out = declared_job(("D", case["api"], case["rule"], case["n"]))
+        return [v["what"] for v in out["violations"]]
     if case.get("family") == "N":
         from mc.checks import c14  # noqa: PLC0415
 
@@ -320,6 +371,10 @@ def replay(case: dict) -> list:
         api, cls = case["api"], case["cls"]
         bindings = [c14.BINDINGS[i] for i in case["bindings"]]
         seq = [T.from_json(x) for x in case["seq"]]
+        if case.get("ns_off"):
+            off = c14.write(api, cls, seq, bindings, tuple(case["preset"]), False)
+            r = validate(off, True, T.norm_seq(seq), expect_ns=[], as_set=api == "rdflib")
+            return [r[1]] if r else []
         data = c14.write(api, cls, seq, bindings, tuple(case["preset"]), True)
         if api == "generic":
             want_ns = [(p, ("I", i)) for p, i in bindings]
